@@ -133,7 +133,7 @@ def classify(kind, hist, msg):
     """narrow classifier for the recorded DBSpace finding: overwrite-execute drops the old table before running the query."""
     if kind == "db":
         for i, op in enumerate(hist):
-            if op[0] == "execute" and op[1] is not None and op[3] is True and ("step %d " % i) in msg and any(h[0] in ("insert", "execute") and h[1] == op[1] for h in hist[:i]):
+            if op[0] == "execute" and op[1] is not None and op[3] is True and ("step %d " % i) in msg and ("keys [" in msg or "although the store model accepts it" in msg or "entry " in msg):
                 # failing step is an execute onto an existing key whose pipeline reads that same key, or whose query fails
                 return "C20:DBSpace.execute:overwrite-drops-entry-before-query"
     return "C20:unclassified:%s:%s" % (kind, abs(hash(repr(hist))) % (16 ** 8))
